@@ -18,7 +18,7 @@ func init() {
 			"(1) prefix bytes untouched and the source's observation unchanged by Encode; (2) decoded mapping Equals the source's and the decoded observation is bitwise the source's (bin-for-bin through the fold model when the target is bounded); arbitrary float weights: per bin |decoded-v| <= ulp(v+1); (3) X.DecodeAndMergeWith(Encode(Y)) is identical to X.MergeWith(Y); (4) decoding Encode(A)||Encode(B)||... equals merging A, B, ...; (5) the independent parser recovers the model content. " +
 			"Non-trivial = encoding with >=2 store blocks or a layout other than contiguous counts; distinct = hash of the histories.",
 		Cases:     core.Scale(40000, 1000000),
-		Mandatory: []string{"oracle.roundtrip_equalities", "oracle.append_only_checks", "oracle.source_unchanged", "oracle.decode_merge_equivalence", "oracle.concatenation_checks", "oracle.independent_parse", "oracle.lossy_weight_checks", "layout.positive.index_deltas", "layout.positive.index_deltas_and_counts", "layout.positive.contiguous_counts", "decode.omitted_mapping", "decode.into_bounded_target", "wide.bins_more_than_2^31_apart", "fine_weights.nine_byte_varfloats", "decode.exact_encoding_with_plain_decoder"},
+		Mandatory: []string{"oracle.roundtrip_equalities", "oracle.append_only_checks", "oracle.source_unchanged", "oracle.decode_merge_equivalence", "oracle.concatenation_checks", "oracle.independent_parse", "oracle.lossy_weight_checks", "layout.positive.index_deltas", "layout.positive.index_deltas_and_counts", "layout.positive.contiguous_counts", "decode.omitted_mapping", "decode.into_bounded_target", "wide.bins_more_than_2^31_apart", "fine_weights.nine_byte_varfloats", "decode.exact_encoding_with_plain_decoder", "encode.of_unread_source"},
 		Assumptions: []string{
 			"dyadic weights under the exactness budget survive the (v+1)-1 transform exactly",
 		},
@@ -245,15 +245,25 @@ func runC06(c *core.Ctx) {
 		return
 	}
 	omit := r.Bool()
-	before := mon.Observe(A.s, nil)
+	// half of the sources are encoded without having answered any query since their history (queries sort and
+	// compact what the stores hold); the other half is observed before and after
+	unread := r.Bool()
+	var before *mon.Obs
+	if !unread {
+		before = mon.Observe(A.s, nil)
+	} else {
+		c.Count("encode.of_unread_source", 1)
+	}
 	e, ok := encodeAppending(c, r, A.s, omit)
 	if !ok {
 		return
 	}
-	c.Count("oracle.source_unchanged", 1)
-	if d := before.Diff(mon.Observe(A.s, nil)); d != "" {
-		c.Failf("encode_changed_source", "Encode changed the sketch: %s", d)
-		return
+	if !unread {
+		c.Count("oracle.source_unchanged", 1)
+		if d := before.Diff(mon.Observe(A.s, nil)); d != "" {
+			c.Failf("encode_changed_source", "Encode changed the sketch: %s", d)
+			return
+		}
 	}
 	blocks, ok := checkWireContent(c, e, A, omit)
 	if !ok {
